@@ -306,6 +306,11 @@ func (ev *Evaluator) Eval(fn *ssa.Function, args []Val) (*Outcome, error) {
 			case ssa.Value:
 				v, err := ev.instr(env, in)
 				if err != nil {
+					// a callee of the module panicked: no modelled function recovers (the only deferred calls accepted are
+					// mutex releases), so the caller panics with the same value
+					if p, ok := err.(*panicked); ok {
+						return &Outcome{Panic: true, PanicV: p.V}, nil
+					}
 					return nil, err
 				}
 				env[in] = v
@@ -490,6 +495,25 @@ func (ev *Evaluator) instr(env map[ssa.Value]Val, in ssa.Value) (Val, error) {
 				return n.X, nil
 			}
 			return Neg{x}, nil
+		case token.XOR:
+			// bitwise complement: known bits flip, a symbolic bit becomes unknown
+			if c, ok := x.(Const); ok && c.V != nil && c.V.Kind() == constant.Int {
+				return wrapConst(Const{constant.BinaryOp(constant.UnaryOp(token.SUB, c.V, 0), token.SUB, constant.MakeInt64(1))}, in.Type()), nil
+			}
+			if b, ok := toBits(x, in.Type()); ok {
+				r := Bits{B: make([]Bit, len(b.B)), Signed: b.Signed}
+				for i, bit := range b.B {
+					switch bit.K {
+					case '0':
+						r.B[i] = Bit{K: '1'}
+					case '1':
+						r.B[i] = Bit{K: '0'}
+					default:
+						r.B[i] = Bit{K: 'T'}
+					}
+				}
+				return r, nil
+			}
 		}
 		return nil, &Undecided{in.Pos(), fmt.Sprintf("unop %s on %v", in.Op, x)}
 	case *ssa.BinOp:
@@ -602,16 +626,46 @@ func (ev *Evaluator) instr(env map[ssa.Value]Val, in ssa.Value) (Val, error) {
 		if err != nil {
 			return nil, err
 		}
-		if p, ok := x.(Ptr); ok && p.Cell != nil && in.Low == nil && in.High == nil {
-			if arr, ok := p.Cell.V.(*ArrayV); ok {
-				sv := &SliceV{}
-				for i := int64(0); i < arr.Len; i++ {
-					if arr.Elems[i] == nil {
-						arr.Elems[i] = ev.newCell("elem", Const{nil})
+		// constant bounds (absent = 0 / length) of a local array or of a modelled slice: a view sharing the cells
+		bound := func(v ssa.Value, dflt int64) (int64, bool) {
+			if v == nil {
+				return dflt, true
+			}
+			y, err := ev.val(env, v)
+			if err != nil {
+				return 0, false
+			}
+			c, ok := y.(Const)
+			if !ok || c.V == nil || c.V.Kind() != constant.Int {
+				return 0, false
+			}
+			return constant.Int64Val(c.V)
+		}
+		if p, ok := x.(Ptr); ok && p.Cell != nil && len(p.Path) == 0 {
+			if arr, ok := p.Cell.V.(*ArrayV); ok && arr.Len > 0 && arr.Len <= 4096 {
+				lo, ok1 := bound(in.Low, 0)
+				hi, ok2 := bound(in.High, arr.Len)
+				if ok1 && ok2 && 0 <= lo && lo <= hi && hi <= arr.Len {
+					sv := &SliceV{}
+					for i := lo; i < hi; i++ {
+						if arr.Elems[i] == nil {
+							var zero Val = Const{nil}
+							if arr.ElemT != nil {
+								zero = zeroOf(arr.ElemT)
+							}
+							arr.Elems[i] = ev.newCell("elem", zero)
+						}
+						sv.Elems = append(sv.Elems, arr.Elems[i])
 					}
-					sv.Elems = append(sv.Elems, arr.Elems[i])
+					return sv, nil
 				}
-				return sv, nil
+			}
+		}
+		if sv, ok := x.(*SliceV); ok && (in.Low != nil || in.High != nil) {
+			lo, ok1 := bound(in.Low, 0)
+			hi, ok2 := bound(in.High, int64(len(sv.Elems)))
+			if ok1 && ok2 && 0 <= lo && lo <= hi && hi <= int64(len(sv.Elems)) {
+				return &SliceV{Elems: sv.Elems[lo:hi]}, nil
 			}
 		}
 		// keep the bounds in the operator name: slice[lo:hi](x)
@@ -886,6 +940,20 @@ func (ev *Evaluator) binop(op token.Token, x, y Val, pos token.Pos) (Val, error)
 		if r, ok := bitsCmpConst(op, x, y); ok {
 			return Const{constant.MakeBool(r)}, nil
 		}
+		// two sortable keys packing the same fields at the same positions
+		if bx, ok := x.(Bits); ok {
+			if by, ok := y.(Bits); ok {
+				var asked []string
+				ask := func(a, b Val) (int, bool) {
+					asked = append(asked, fmt.Sprintf("%v ? %v", a, b))
+					return ev.Oracle.Cmp(a, b)
+				}
+				if ord, ok := packedCmp(bx, by, ask); ok {
+					ev.Asked = append(ev.Asked, asked...)
+					return Const{constant.MakeBool(cmpHolds(op, ord))}, nil
+				}
+			}
+		}
 		ord, ok := ev.Oracle.Cmp(x, y)
 		ev.Asked = append(ev.Asked, fmt.Sprintf("%v %s %v", x, op, y))
 		if !ok {
@@ -932,6 +1000,24 @@ func (ev *Evaluator) binop(op token.Token, x, y Val, pos token.Pos) (Val, error)
 }
 
 // IntRange is an integer known only to lie in [Lo, Hi] (result of a summary such as a bit count).
+func cmpHolds(op token.Token, ord int) bool {
+	switch op {
+	case token.EQL:
+		return ord == 0
+	case token.NEQ:
+		return ord != 0
+	case token.LSS:
+		return ord < 0
+	case token.LEQ:
+		return ord <= 0
+	case token.GTR:
+		return ord > 0
+	case token.GEQ:
+		return ord >= 0
+	}
+	return false
+}
+
 type IntRange struct{ Lo, Hi int64 }
 
 func (r IntRange) String() string { return fmt.Sprintf("[%d..%d]", r.Lo, r.Hi) }
@@ -1098,7 +1184,7 @@ func (ev *Evaluator) call(env map[ssa.Value]Val, in *ssa.Call) (Val, error) {
 			return nil, err
 		}
 		if out.Panic {
-			return nil, &Undecided{in.Pos(), "closure panics"}
+			return nil, &panicked{out.PanicV}
 		}
 		return out.Ret, nil
 	}
@@ -1116,6 +1202,12 @@ func (ev *Evaluator) apply(fn *ssa.Function, args []Val, pos token.Pos) (Val, er
 		return s(ev, args)
 	}
 	if fn.Pkg == nil && fn.Origin() == nil || len(fn.Blocks) == 0 || !strings.HasPrefix(pkgPath(fn), "go.lstv.dev/util") {
+		if v, ok := bitCount(key, args, fn); ok {
+			return v, nil
+		}
+		if v, ok := byteOrder(key, args); ok {
+			return v, nil
+		}
 		t := Term{Fn: key, Args: args}
 		ev.Trace = append(ev.Trace, t.String())
 		return t, nil
@@ -1130,10 +1222,15 @@ func (ev *Evaluator) apply(fn *ssa.Function, args []Val, pos token.Pos) (Val, er
 		return nil, err
 	}
 	if out.Panic {
-		return nil, &Undecided{pos, "callee panics"}
+		return nil, &panicked{out.PanicV}
 	}
 	return out.Ret, nil
 }
+
+// panicked carries a callee's panic up to the evaluation of the calling function.
+type panicked struct{ V Val }
+
+func (p *panicked) Error() string { return fmt.Sprintf("callee panics with %v", p.V) }
 
 func pkgPath(fn *ssa.Function) string {
 	if fn.Pkg != nil {
